@@ -90,22 +90,16 @@ example : defsTable exDefs [] = some [(bytesOf "base", some 0x20000000), (bytesO
     Codec.encode (.b 14 (-260)) = .ok [0xE77E] := by
   refine ⟨by decide, by decide, rfl⟩
 
-/-- C04t.b  **Diagnosed direction through the whole pipeline model.**  Same programs as `run_defs_stmt`
-(`.addr A;`, definitions building `tbl`, ONE instruction statement `name args` with a known mnemonic and operands of the
-documented forms over defined names): if the statement has NO encodable meaning — `means` is `none` (wrong operand count
-or kind, overflow, target not an address, …), or the instruction does not fit its field types, or the encoder refuses it
-(out of range, misaligned, high register, …) — then `Asm.run` ends in an outcome that is NOT a success, records at least
-one diagnostic, and EVERY recorded diagnostic is positioned at the statement: file `main`, line and column of the
-statement's element (by C12 `Parse.stmt_pos` the position of its first token).  This covers the first attempt, the
-placeholder, the queued retry (`local_tasks`, then `finalize`): whatever they do, nothing is reported elsewhere and the
-run does not succeed. -/
-theorem run_defs_stmt_diag (fs : Bytes → Option Bytes) (main data : Bytes) (hfs : fs main = some data)
+/-- the diagnosed direction for any statement of which the pipeline's instruction statement is known to record a
+diagnostic (`hK`); instantiated below for statements without an encodable meaning and for unknown mnemonics -/
+theorem run_defs_stmt_diag_of (fs : Bytes → Option Bytes) (main data : Bytes) (hfs : fs main = some data)
     (els : List Element) (hp : Asm.parseFile data = .ok (els, none)) (A : Nat) (hA : A < 4294967296)
     (defs : List (Bytes × Arg)) (name : Bytes) (args : Args) (hels : els.map (·.val) = progVals A defs name args)
     (tbl : Asm.Table) (hdefs : defsTable defs [] = some tbl)
-    (t : Instr) (hm : mnemonic name = some t) (hw : wellFormed (tabOf tbl) (sig t) args.toList)
-    (hq : ∀ vs, denoteAll (tabOf tbl) (sig t) args.toList = some vs → ¬ svQuirk t vs)
-    (hno : ∀ i hws, ¬ (means (tabOf tbl) A name args.toList = some i ∧ i.wf ∧ Codec.encode i = .ok hws)) :
+    (hK : ∀ (l c : Nat) (st' : Asm.St) (r : Asm.Res), Asm.Table.NoDef tbl → tblI64 tbl →
+      Asm.instruction Asm.encoder ⟨[main], main⟩
+        ⟨⟨[], some ⟨A, [], Map.u32Max - A + 1⟩, []⟩, [], some tbl, [], some [], []⟩ l c name args.toList = .ok (st', r) →
+      1 ≤ st'.errors.length) :
     ∃ el o, el ∈ els ∧ el.val = .instruction name args ∧ Asm.run fs main = .done o ∧ o.success = false ∧ o.diags ≠ [] ∧
       ∀ d ∈ o.diags, d.file = main ∧ d.line = el.line ∧ d.col = el.col := by
   simp only [progVals] at hels
@@ -163,10 +157,7 @@ theorem run_defs_stmt_diag (fs : Bytes → Option Bytes) (main data : Bytes) (hf
     exact absurd hX (Asm.instruction_nf _ _ _ _ _ _ _)
   | ok p =>
     obtain ⟨st1, r1⟩ := p
-    have herr1 : 1 ≤ st1.errors.length := by
-      have := instr_diag env S0 tbl hnd hi64 (by simp [env]) rfl [] ⟨A, [], Map.u32Max - A + 1⟩ [] rfl l2 c2 name args.toList t hm hw hq
-        (by rw [Show.cur_empty A _ hA]; exact hno) st1 r1 hX
-      simpa [S0] using this
+    have herr1 : 1 ≤ st1.errors.length := hK l2 c2 st1 r1 hnd hi64 hX
     have hp1 : PAt main l2 c2 st1 :=
       pat_of_eff hp0 (Asm.instruction_eff (env := env) _ _ hX) (Asm.instruction_quiet _ _ hX)
     rw [hX] at hfb
@@ -215,6 +206,63 @@ theorem run_defs_stmt_diag (fs : Bytes → Option Bytes) (main data : Bytes) (hf
             exact hfin st2 r2 hfb1 (by simp only at hg; omega) hp2
     obtain ⟨o, h1, h2, h3, h4⟩ := hgoal
     exact ⟨o, by simp, rfl, h1, h2, h3, fun d hd => h4 d hd⟩
+
+/-- C04t.b  **Diagnosed direction through the whole pipeline model.**  Same programs as `run_defs_stmt`
+(`.addr A;`, definitions building `tbl`, ONE instruction statement `name args` with a known mnemonic and operands of the
+documented forms over defined names): if the statement has NO encodable meaning — `means` is `none` (wrong operand count
+or kind, overflow, target not an address, …), or the instruction does not fit its field types, or the encoder refuses it
+(out of range, misaligned, high register, …) — then `Asm.run` ends in an outcome that is NOT a success, records at least
+one diagnostic, and EVERY recorded diagnostic is positioned at the statement: file `main`, line and column of the
+statement's element (by C12 `Parse.stmt_pos` the position of its first token).  This covers the first attempt, the
+placeholder, the queued retry (`local_tasks`, then `finalize`): whatever they do, nothing is reported elsewhere and the
+run does not succeed. -/
+theorem run_defs_stmt_diag (fs : Bytes → Option Bytes) (main data : Bytes) (hfs : fs main = some data)
+    (els : List Element) (hp : Asm.parseFile data = .ok (els, none)) (A : Nat) (hA : A < 4294967296)
+    (defs : List (Bytes × Arg)) (name : Bytes) (args : Args) (hels : els.map (·.val) = progVals A defs name args)
+    (tbl : Asm.Table) (hdefs : defsTable defs [] = some tbl)
+    (t : Instr) (hm : mnemonic name = some t) (hw : wellFormed (tabOf tbl) (sig t) args.toList)
+    (hq : ∀ vs, denoteAll (tabOf tbl) (sig t) args.toList = some vs → ¬ svQuirk t vs)
+    (hno : ∀ i hws, ¬ (means (tabOf tbl) A name args.toList = some i ∧ i.wf ∧ Codec.encode i = .ok hws)) :
+    ∃ el o, el ∈ els ∧ el.val = .instruction name args ∧ Asm.run fs main = .done o ∧ o.success = false ∧ o.diags ≠ [] ∧
+      ∀ d ∈ o.diags, d.file = main ∧ d.line = el.line ∧ d.col = el.col := by
+  refine run_defs_stmt_diag_of fs main data hfs els hp A hA defs name args hels tbl hdefs ?_
+  intro l c st' r hnd hi64 hX
+  have := instr_diag ⟨[main], main⟩ ⟨⟨[], some ⟨A, [], Map.u32Max - A + 1⟩, []⟩, [], some tbl, [], some [], []⟩ tbl hnd hi64
+    (by simp) rfl [] ⟨A, [], Map.u32Max - A + 1⟩ [] rfl l c name args.toList t hm hw hq
+    (by rw [Show.cur_empty A _ hA]; exact hno) st' r hX
+  simpa using this
+
+/-- C04t.b'  **Unknown mnemonic.**  Same programs with a statement whose mnemonic is not in the table (in any letter case,
+`Front.mnemonic name = none`): `Asm.run` does not succeed, records at least one diagnostic (`InstrErrorKind::NotFound`),
+and every diagnostic is at the statement. -/
+theorem run_defs_stmt_unknown (fs : Bytes → Option Bytes) (main data : Bytes) (hfs : fs main = some data)
+    (els : List Element) (hp : Asm.parseFile data = .ok (els, none)) (A : Nat) (hA : A < 4294967296)
+    (defs : List (Bytes × Arg)) (name : Bytes) (args : Args) (hels : els.map (·.val) = progVals A defs name args)
+    (tbl : Asm.Table) (hdefs : defsTable defs [] = some tbl) (hm : mnemonic name = none) :
+    ∃ el o, el ∈ els ∧ el.val = .instruction name args ∧ Asm.run fs main = .done o ∧ o.success = false ∧ o.diags ≠ [] ∧
+      ∀ d ∈ o.diags, d.file = main ∧ d.line = el.line ∧ d.col = el.col := by
+  refine run_defs_stmt_diag_of fs main data hfs els hp A hA defs name args hels tbl hdefs ?_
+  intro l c st' r _ _ hX
+  simp only [Asm.instruction, Asm.currAddr, Option.map_some, hm] at hX
+  cases hX
+  simp [Asm.St.push, Asm.St.pushIn]
+
+/-- C04t.b''  **Every statement that is not assembled is diagnosed at its own position**: `run_defs_stmt_diag` and
+`run_defs_stmt_unknown` together — the hypothesis is only that the statement has no encodable meaning (`means` is `none`
+also for an unknown mnemonic), and, IF the mnemonic is known, that the operands are of the documented forms. -/
+theorem run_defs_stmt_diag_any (fs : Bytes → Option Bytes) (main data : Bytes) (hfs : fs main = some data)
+    (els : List Element) (hp : Asm.parseFile data = .ok (els, none)) (A : Nat) (hA : A < 4294967296)
+    (defs : List (Bytes × Arg)) (name : Bytes) (args : Args) (hels : els.map (·.val) = progVals A defs name args)
+    (tbl : Asm.Table) (hdefs : defsTable defs [] = some tbl)
+    (hw : ∀ t, mnemonic name = some t → wellFormed (tabOf tbl) (sig t) args.toList ∧
+      ∀ vs, denoteAll (tabOf tbl) (sig t) args.toList = some vs → ¬ svQuirk t vs)
+    (hno : ∀ i hws, ¬ (means (tabOf tbl) A name args.toList = some i ∧ i.wf ∧ Codec.encode i = .ok hws)) :
+    ∃ el o, el ∈ els ∧ el.val = .instruction name args ∧ Asm.run fs main = .done o ∧ o.success = false ∧ o.diags ≠ [] ∧
+      ∀ d ∈ o.diags, d.file = main ∧ d.line = el.line ∧ d.col = el.col := by
+  cases hm : mnemonic name with
+  | none => exact run_defs_stmt_unknown fs main data hfs els hp A hA defs name args hels tbl hdefs hm
+  | some t =>
+    exact run_defs_stmt_diag fs main data hfs els hp A hA defs name args hels tbl hdefs t hm (hw t hm).1 (hw t hm).2 hno
 
 /-- non-vacuity of `run_defs_stmt_diag`: `ADDS R1, R1, 300` and `ADDS R1, 300` have no encodable meaning, with known
 mnemonic and well-formed operands -/
@@ -358,6 +406,34 @@ example : ∃ o, Asm.run (fun _ => some (bytesOf ".addr 0;\nADDS R1, R1, 300;"))
       intro i hws ⟨hmn, _, he⟩
       have : means (tabOf []) 0 (bytesOf "ADDS") [.ident (bytesOf "R1"), .ident (bytesOf "R1"), .const 300] = some (.add true 1 1 (.imm 300)) := by decide
       rw [this] at hmn; cases hmn; cases he)
+  exact ⟨o, h1, h2, h3⟩
+
+/-- C04t.e'  `run_text_diag` without the known-mnemonic hypothesis (unknown mnemonics are diagnosed at the statement too) -/
+theorem run_text_diag_any (fs : Bytes → Option Bytes) (main : Bytes) (A : Nat) (hA : A < 4294967296) (defs : List (Bytes × Arg))
+    (hdefsok : ∀ d ∈ defs, Lex.identOk d.1 = true ∧ Show.Opnd d.2) (name : Bytes) (hn : Lex.identOk name = true)
+    (args : List Arg) (hargs : ∀ x ∈ args, Show.Opnd x) (hfs : fs main = some (progText A defs name args))
+    (tbl : Asm.Table) (hdefs : defsTable defs [] = some tbl)
+    (hw : ∀ t, mnemonic name = some t → wellFormed (tabOf tbl) (sig t) args ∧
+      ∀ vs, denoteAll (tabOf tbl) (sig t) args = some vs → ¬ svQuirk t vs)
+    (hno : ∀ i hws, ¬ (means (tabOf tbl) A name args = some i ∧ i.wf ∧ Codec.encode i = .ok hws)) :
+    ∃ els el o, Asm.parseFile (progText A defs name args) = .ok (els, none) ∧ el ∈ els ∧
+      el.val = .instruction name (Args.ofList args) ∧ Asm.run fs main = .done o ∧ o.success = false ∧ o.diags ≠ [] ∧
+      ∀ d ∈ o.diags, d.file = main ∧ d.line = el.line ∧ d.col = el.col := by
+  obtain ⟨els, hp, hels⟩ := parseFile_progText_partial A hA defs hdefsok name hn args hargs
+  obtain ⟨el, o, h1, h2, h3⟩ := run_defs_stmt_diag_any fs main _ hfs els hp A hA defs name (Args.ofList args) hels tbl hdefs
+    (by rw [Show.toList_ofList]; exact hw) (by rw [Show.toList_ofList]; exact hno)
+  exact ⟨els, el, o, hp, h1, h2, h3⟩
+
+/-- non-vacuity: `.addr 0;⏎FOO R1;` — unknown mnemonic -/
+example : ∃ o, Asm.run (fun _ => some (bytesOf ".addr 0;\nFOO R1;")) [] = .done o ∧ o.success = false ∧ o.diags ≠ [] := by
+  have ht : progText 0 [] (bytesOf "FOO") [.ident (bytesOf "R1")] = bytesOf ".addr 0;\nFOO R1;" := by decide
+  obtain ⟨els, el, o, _, _, _, h1, h2, h3, _⟩ := run_text_diag_any (fun _ => some (bytesOf ".addr 0;\nFOO R1;")) [] 0 (by decide) []
+    (by simp) (bytesOf "FOO") (by decide) [.ident (bytesOf "R1")]
+    (by intro x hx; simp at hx; subst hx; exact .atom (.ident _ (by decide))) (by rw [ht]) [] rfl
+    (by intro t ht; have h0 : mnemonic (bytesOf "FOO") = none := by decide
+        rw [h0] at ht; cases ht)
+    (by intro i hws ⟨hmn, _⟩; have : means (tabOf []) 0 (bytesOf "FOO") [.ident (bytesOf "R1")] = none := by decide
+        rw [this] at hmn; cases hmn)
   exact ⟨o, h1, h2, h3⟩
 
 end Trion.C04
